@@ -42,6 +42,9 @@ def handle : List String → Option String
       let eq := parseBits eq
       let tr := bezierTrace n ny ix (fun k => am.getD k 0) (fun j => eq.getD j false)
       some s!"{bit (bezPreB n ix)}|{bit (tr.all fun e => decide (e.Ok n ny ix.length))}|{showList showEv tr}"
+  | ["c05.peaksegs", bits] =>
+      let m := parseBits bits
+      some s!"{showInts (adjStarts (peakSegs true 0 m).1)}|{showInts (adjEnds m.length (peakSegs true 0 m).2)}"
   | ["c05.flatnonzero", bits] => some (showInts (flatnonzero (parseBits bits)))
   | ["c05.interp", nx, ny] => do
       let nx ← nx.toNat?; let ny ← ny.toNat?
